@@ -100,6 +100,9 @@ def _socket_sendall(ip, s, args, kw):
     if hook is not None:
         hook(ip, s, b)
     may_raise(ip, 'sendall')
+    hook = st.ghost.get('sent_hook')
+    if hook is not None:
+        hook(ip, s, b)
     st.ghost['wire'] = wire(st).append(SBytes(BYTES, b.n, b.at, b.arr, meta=b.meta))
     st.ghost.setdefault('wire_log', []).append(b)
     return None
